@@ -76,7 +76,9 @@ func (r *Rng) genLevel() interface{} {
 
 func itoa(v int64) string { b, _ := json.Marshal(v); return string(b) }
 
-var plEventTypes = []string{"m.room.name", "m.room.power_levels", "m.room.message", "m.room.member", "m.room.redaction", "m.room.third_party_invite", "x.custom"}
+var plEventTypes = []string{"m.room.name", "m.room.power_levels", "m.room.message", "m.room.member", "m.room.redaction", "m.room.third_party_invite", "x.custom",
+	// event types spelled like the named thresholds / other keys of the content (they share no namespace with them)
+	"ban", "kick", "invite", "redact", "users_default", "events_default", "state_default", "users", "events", "notifications", "room"}
 
 // genPL generates a power_levels content.
 func (r *Rng) genPL(users []string) map[string]interface{} {
